@@ -17,7 +17,7 @@ RULE = ('1-3 started ActiveObjects, each subscribed to a signal with queue_type 
         'publications in publish order and concurrent posts in post order (the queue operations used are not prescribed). distinct_nontrivial = distinct (objects, kinds, pending, burst, subscribe-before-'
         'start) tuples x schedule')
 CASES = {'quick': 1200, 'thorough': 40000}
-BUDGET = {'quick': 50, 'thorough': 300}
+BUDGET = {'quick': 150, 'thorough': 300}
 REQUIRE = {'runs': 500, 'lifo_deliveries': 500, 'fifo_deliveries': 500, 'lifo_with_pending_events': 200, 'runs_with_concurrent_poster': 200, 'objects_subscribed_both_ways': 150}
 ASSUME = ['subscriptions of active objects (the statement); plain-deque subscribers keep the repository\'s pinned append behaviour']
 ANNOUNCE_CASES = True
